@@ -109,6 +109,28 @@ class SeqEval:
                 return None
             return tuple(a) + tuple(b)
         if isinstance(e, ast.ListComp) and len(e.generators) == 1 \
+                and len(e.generators[0].ifs) == 1 and isinstance(
+                    e.generators[0].iter, ast.Call) and U(
+                    e.generators[0].iter.func) == 'zip' and len(
+                    e.generators[0].iter.args) == 2 and isinstance(
+                    e.generators[0].target, ast.Tuple) and len(
+                    e.generators[0].target.elts) == 2 and all(
+                        isinstance(t, ast.Name)
+                        for t in e.generators[0].target.elts):
+            # [d for d, s in zip(D, S) if cond(s)]: D filtered, order kept
+            g = e.generators[0]
+            d_, s_ = g.target.elts
+            if isinstance(e.elt, ast.Name) and e.elt.id == d_.id and not any(
+                    isinstance(x, ast.Name) and x.id == d_.id
+                    for x in ast.walk(g.ifs[0])):
+                v = self.ev(g.iter.args[0])
+                if v is not None:
+                    cond = U(g.ifs[0])
+                    return tuple(Seg(sg.src, sg.lo, sg.hi, sg.tf,
+                                     (sg.sub + ' and ' if sg.sub else '')
+                                     + cond) for sg in v)
+            return None
+        if isinstance(e, ast.ListComp) and len(e.generators) == 1 \
                 and not e.generators[0].ifs and isinstance(
                 e.generators[0].target, ast.Name):
             g = e.generators[0]
